@@ -1053,19 +1053,24 @@ fn parse_files0_args(config: &mut Config) -> Result<(), Box<dyn Error>> {
         buffer_split.remove(buffer_split.len() - 1);
     }
 
-    let mut string_segments: Vec<String> = buffer_split
-        .iter()
-        .filter_map(|s| std::str::from_utf8(s).ok())
-        .map(|s| s.to_string())
-        .collect();
-    // empty starting point checker
-    if string_segments.iter().any(|s| s.is_empty()) {
-        eprintln!("find: invalid zero-length file name");
-        // remove the empty ones so as to avoid file not found error
-        string_segments.retain(|s| !s.is_empty());
+    // A name that cannot be used as a starting point is diagnosed and skipped
+    // like any other starting point that cannot be examined; the others are
+    // still walked and the exit status tells.
+    let mut invalid_names = false;
+    for segment in buffer_split {
+        match std::str::from_utf8(segment) {
+            Ok("") => eprintln!("find: invalid zero-length file name"),
+            Ok(name) => new_paths.push(name.to_string()),
+            Err(_) => {
+                eprintln!(
+                    "find: '{}': file name is not valid Unicode",
+                    String::from_utf8_lossy(segment)
+                );
+                invalid_names = true;
+            }
+        }
     }
-
-    new_paths.extend(string_segments);
+    config.files0_invalid_names = invalid_names;
     Ok(())
 }
 
